@@ -84,9 +84,10 @@ Proof. exact wrap32_id_signed. Qed.
 Print Assumptions C08_quo_value_exact_signed.
 
 (* ======================= part B: unwinding machine ========================== *)
-(* ImplPanic has three variant flags (Model/C08_Panic.v [variant]); the check probes the source and
-   evaluates the shape it finds.  V_GOEXIT = /repo HEAD (Goexit repaired), V_REPAIRED = HEAD + the
-   replaced-panic repair (branch fixes2), V_FULL = additionally the $goroutine catch-clause repair. *)
+(* ImplPanic has three variant flags (Model/C08_Panic.v [variant]), one per repaired finding; the
+   check probes the source on every run and evaluates the shape it finds.  /repo HEAD has all three
+   repairs: V_FULL.  Historic shapes (V_OLD, V_GOEXIT, V_REPAIRED) and their refutations live in
+   Proofs/C08_Panic.v only. *)
 
 (* defer_lifo, unbounded: for EVERY program, every amount of fuel and every variant, the events of
    each $deferred list replay as a stack ([pend] is defined, and what is still pending is exactly what
@@ -121,63 +122,39 @@ Definition C08_defer_lifo_once_full_statement (vr : variant) : Prop :=
   forall fuel p out s, impl_fun vr fuel p 0 0 wrapper j_init = Some (out, s) ->
   forall id, pend id (j_trace s) = Some [].
 
-(* ---- /repo HEAD (V_GOEXIT) ---- bounded: the 226 477 enumerated programs [enum_calm] — one function
-   with <= 2 statements over 79 shapes or <= 5 statements over 11 shapes; two functions with call /
-   defer / panics in the callee; Goexit in function bodies and deferred calls across two functions,
-   with deferred calls that call functions having defers while the goroutine exits — in which no
-   panic is raised inside deferred-call code: equal observable trace and final status, and every
-   pushed deferred call runs exactly once. *)
-Theorem C08_impl_refines_spec_panic_partial : forall p, In p enum_calm ->
-  exists r, obs (spec_run ENUM_FUEL p) = Some r /\ obs (impl_run V_GOEXIT ENUM_FUEL p) = Some r.
-Proof. exact refines_calm. Qed.
-Print Assumptions C08_impl_refines_spec_panic_partial.
-Theorem C08_defer_lifo_once_partial : forall p, In p enum_calm ->
-  exists out s, impl_fun V_GOEXIT ENUM_FUEL p 0 0 wrapper j_init = Some (out, s) /\
-    forall id, (id < j_next s)%nat -> pend id (j_trace s) = Some [].
-Proof. exact lifo_once_calm. Qed.
-Print Assumptions C08_defer_lifo_once_partial.
-
-(* the two findings that are still open on HEAD refute the full statements for V_GOEXIT *)
-Theorem C08_replaced_panic_refuted :
-  obs (spec_run 100 wit_replaced) = Some ([ERec (Some (PInt 2)); ETraceX 0 0], FNormal) /\
-  obs (impl_run V_GOEXIT 100 wit_replaced) = Some ([ERec (Some (PInt 2))], FFatal (PInt 1)).
-Proof. split; [exact (proj1 wit_replaced_runs) | exact wit_replaced_goexit_variant]. Qed.
-Print Assumptions C08_replaced_panic_refuted.
-Theorem C08_panic_during_goexit_swallowed_refuted :
-  obs (spec_run 100 wit_goexit_panic) = Some ([], FFatal (PInt 2)) /\
-  obs (impl_run V_GOEXIT 100 wit_goexit_panic) = Some ([], FNormal).
-Proof. exact wit_goexit_panic_cur. Qed.
-Print Assumptions C08_panic_during_goexit_swallowed_refuted.
-
-(* ---- HEAD + replaced-panic repair (V_REPAIRED, branch fixes2) ---- bounded: [enum_all] = enum_calm
-   plus 103 250 programs with panics raised INSIDE deferred calls (replaced panics, re-panic after
-   recover, panic in a helper of a deferred call, nested deferred recover; one function with <= 4
-   statements over 16 shapes, two functions that call / defer each other and both panic). *)
-Theorem C08_impl_refines_spec_panic_repaired_partial : forall p, In p enum_all ->
-  exists r, obs (spec_run ENUM_FUEL p) = Some r /\ obs (impl_run V_REPAIRED ENUM_FUEL p) = Some r.
-Proof. exact refines_all. Qed.
-Print Assumptions C08_impl_refines_spec_panic_repaired_partial.
-Theorem C08_defer_lifo_once_repaired_partial : forall p, In p enum_all ->
-  exists out s, impl_fun V_REPAIRED ENUM_FUEL p 0 0 wrapper j_init = Some (out, s) /\
-    forall id, (id < j_next s)%nat -> pend id (j_trace s) = Some [].
-Proof. exact lifo_once_all. Qed.
-Print Assumptions C08_defer_lifo_once_repaired_partial.
-
-(* ---- all three repairs (V_FULL) ---- bounded: [enum_full] = enum_all plus 4 681 one-function
-   programs mixing Goexit with panics in deferred calls. *)
-Theorem C08_impl_refines_spec_panic_full_repair_partial : forall p, In p enum_full ->
+(* impl_refines_spec_panic and defer_lifo_once, bounded: on the 334 408 exhaustively enumerated
+   programs [enum_full] ImplPanic (current shape) and SpecPanic terminate with the same observable
+   trace and final status, and every pushed deferred call has run exactly once.  The class: one
+   function with <= 2 statements over 79 statement shapes or <= 5 statements over 11 shapes; two
+   functions with call / defer and panics in caller and callee; Goexit in function bodies and in
+   deferred calls across two functions, with deferred calls that call functions having defers while
+   the goroutine exits; panics raised INSIDE deferred calls (replaced panics, re-panic after recover,
+   panic in a helper of a deferred call, nested deferred recover; one function with <= 4 statements
+   over 16 shapes, two functions that call / defer each other and both panic); Goexit mixed with
+   panics in deferred calls.  Not unbounded: no simulation proof between the two machines exists
+   (it needs the stack-shape invariant mentioned at recover_legal_iff); suspension is not modelled. *)
+Theorem C08_impl_refines_spec_panic_partial : forall p, In p enum_full ->
   exists r, obs (spec_run ENUM_FUEL p) = Some r /\ obs (impl_run V_FULL ENUM_FUEL p) = Some r.
 Proof. exact refines_full. Qed.
-Print Assumptions C08_impl_refines_spec_panic_full_repair_partial.
+Print Assumptions C08_impl_refines_spec_panic_partial.
+Theorem C08_defer_lifo_once_partial : forall p, In p enum_full ->
+  exists out s, impl_fun V_FULL ENUM_FUEL p 0 0 wrapper j_init = Some (out, s) /\
+    forall id, (id < j_next s)%nat -> pend id (j_trace s) = Some [].
+Proof. exact lifo_once_full. Qed.
+Print Assumptions C08_defer_lifo_once_partial.
 
-(* the witnesses of the repaired findings now behave as in Go *)
+(* the minimal witnesses of the five repaired findings (Goexit swallowed, Goexit repair aborting a
+   deferring callee, replaced panic resurrected, deferred call skipped, panic during Goexit swallowed)
+   behave as in Go on the current shape *)
 Theorem C08_repaired_witnesses :
-  obs (impl_run V_GOEXIT 100 wit_goexit) = obs (spec_run 100 wit_goexit) /\
-  obs (impl_run V_GOEXIT 100 wit_goexit_fixed) = obs (spec_run 100 wit_goexit_fixed) /\
-  obs (impl_run V_REPAIRED 100 wit_replaced) = obs (spec_run 100 wit_replaced) /\
-  obs (impl_run V_REPAIRED 100 wit_skipped) = obs (spec_run 100 wit_skipped) /\
+  obs (impl_run V_FULL 100 wit_goexit) = obs (spec_run 100 wit_goexit) /\
+  obs (impl_run V_FULL 100 wit_goexit_fixed) = obs (spec_run 100 wit_goexit_fixed) /\
+  obs (impl_run V_FULL 100 wit_replaced) = obs (spec_run 100 wit_replaced) /\
+  obs (impl_run V_FULL 100 wit_skipped) = obs (spec_run 100 wit_skipped) /\
+  obs (impl_run V_FULL 100 wit_goexit_panic) = obs (spec_run 100 wit_goexit_panic) /\
+  obs (spec_run 100 wit_goexit_panic) = Some ([], FFatal (PInt 2)) /\
   obs (spec_run 100 wit_skipped) = Some ([ERec (Some (PInt 2)); ERec None; ETrace 0; ETraceX 0 0], FNormal).
-Proof. exact witnesses_repaired. Qed.
+Proof. exact witnesses_full. Qed.
 Print Assumptions C08_repaired_witnesses.
 
 Theorem C08_enumeration_sizes :
@@ -195,6 +172,6 @@ Example C08_nonvacuous :
   impl_makeslice 2147483648 None = GThrow /\
   impl_quo true (-2147483648) (-1) = GOk [-2147483648] /\
   let p := [[SDeferClo [SRecover; SSetR 7]; SDeferClo [SCallClo [SRecover]]; SDefer 1%nat; SSetX 4; SPanic (PRt 0)]; [STraceX]] in
-  obs (impl_run V_GOEXIT 100 p) = Some ([ETraceX 0 0; ERec None; ERec (Some (PRt 0)); ETraceX 7 0], FNormal) /\
-  obs (spec_run 100 p) = obs (impl_run V_GOEXIT 100 p).
+  obs (impl_run V_FULL 100 p) = Some ([ETraceX 0 0; ERec None; ERec (Some (PRt 0)); ETraceX 7 0], FNormal) /\
+  obs (spec_run 100 p) = obs (impl_run V_FULL 100 p).
 Proof. vm_compute. repeat split; reflexivity. Qed.
